@@ -131,10 +131,21 @@ def run(ctx):
             sv, sa = rng.choice(sel_opts)
             runs.append(dict(args=["new", "--vanity-prefix", p, "-j", str(j), "-n", str(n)] + sv, sel=sa, prefix=p, n=n, j=j,
                              timeout=300))
+    # every third search runs in an environment that defines the four account variables of the OTHER commands and a variable
+    # named after every option of the binary: `new` takes its selectors from its --vanity-* options only
+    import implrun
+    hostile = dict(MNEMONIC="test test test test test test test test test test test junk", PASSWORD="from-the-environment", ACCOUNT_INDEX="9", HD_PATH="m/1'")
+    for n_ in implrun.option_names(ctx.bins["cli"]):
+        v_ = "5" if ("index" in n_ or "threads" in n_ or "length" in n_) else "m/2'" if "path" in n_ else "0xf" if "prefix" in n_ else "english" if "language" in n_ else "true"
+        hostile.setdefault(n_.upper().replace("-", "_"), v_)
+        hostile.setdefault("HDWALLET_" + n_.upper().replace("-", "_"), v_)
+    for k_, rn in enumerate(runs):
+        if k_ % 3 == 2:
+            rn["env"] = hostile
     res = ctx.cli(runs, timeout=300)
     back = []
     for rn, r in zip(runs, res):
-        case = dict(op="new --vanity-prefix", args=rn["args"])
+        case = dict(op="new --vanity-prefix", args=rn["args"], environment=("account variables and option-named variables set" if rn.get("env") else "clean"))
         ctx.count("search/%d-digit/j%d" % (len(rn["prefix"]) - 2, rn["j"]))
         ctx.distinct(("search", tuple(rn["args"])))
         if r.cls != "ok":
